@@ -31,13 +31,18 @@ def _lib():
 
 
 def same_host(a: str, b: str) -> bool:
-    a, b = a.lower(), b.lower()
-    if a == b:
+    """Hosts are case-insensitive, the zone identifier of a scoped IPv6 literal is not."""
+    ah, _, az = a.partition("%")
+    bh, _, bz = b.partition("%")
+    if ":" not in ah and ":" not in bh:
+        return a.lower() == b.lower()  # reg-name: '%' starts a percent-escape, hex digits are case-insensitive
+    if az != bz:
+        return False
+    ah, bh = ah.lower(), bh.lower()
+    if ah == bh:
         return True
     try:
-        return ipaddress.IPv6Address(a.split("%")[0]) == ipaddress.IPv6Address(b.split("%")[0]) and (
-            a.partition("%")[2] == b.partition("%")[2]
-        )
+        return ipaddress.IPv6Address(ah) == ipaddress.IPv6Address(bh)
     except ValueError:
         return False
 
@@ -282,6 +287,12 @@ def strat_grammar():
             q = "q" * max(1, room - 3)
             return {"url": base + "/p?" + q, "host": hden, "port": 1965, "path": "/p", "query": q, "labels": ["len-boundary", "query"]}
         u = draw(urlgen.gemini_url())
+        if draw(st.integers(0, 14)) == 0:
+            zone = draw(st.sampled_from(["eth0", "Eth0", "EN0", "1", "wlan-A"]))
+            addr = draw(st.sampled_from(["fe80::1", "FE80::a:b", "fe80::1:2:3:4"]))
+            pth = u["path"] if u["url"].split("://", 1)[1].find("/") >= 0 else ""
+            u = {"url": f"gemini://[{addr}%25{zone}]{pth}", "host": f"{addr.lower()}%25{zone}", "port": 1965, "path": pth or "/",
+                 "query": "", "labels": ["host:ipv6", "host:zone"]}
         if draw(st.integers(0, 9)) == 0:
             u = dict(u)
             sch = draw(st.sampled_from(["GEMINI", "Gemini", "gEmInI"]))
